@@ -23,6 +23,8 @@ fn space(k: usize) -> ForestSpace {
     let i = || name("i");
     let atoms = vec![
         Stmt::Row(vec![l(10), Entry::Lit(0x1F, Radix::HexUp), l(0)]),
+        // a literal that starts with 0 in front of one that starts with 8 / 9 / a letter-like entry
+        Stmt::Row(vec![l(0), l(8), l(9)]),
         Stmt::Row(vec![l(11), Entry::Lit(0xB0, Radix::Hex), Entry::Lit(0xBB, Radix::HexUp)]),
         Stmt::Row(vec![Entry::Paren(bin(BinOp::Shl, i(), Expr::Lit(2, Radix::Bin))), Entry::X, Entry::Lit(8, Radix::Oct)]),
         Stmt::Row(vec![Entry::Bits(2, bin(BinOp::Le, un(UnOp::Inv, un(UnOp::Neg, i())), lit(7))), Entry::Z]),
@@ -44,12 +46,32 @@ fn is_lit(t: &str) -> bool {
 /// may t1 and t2 be written without blank space between them? Only if the reference lexer
 /// reads the concatenation as exactly these two tokens.
 fn can_join(t1: &str, t2: &str) -> bool {
-    if is_lit(t1) && t2.chars().next().map(|c| c.is_ascii_alphanumeric() || c == '_').unwrap_or(false) {
-        return false;
-    }
     let cat = format!("{t1}{t2}");
     let toks = refgrammar::lex(&cat, 0);
     toks.len() == 3 && toks[0].end == t1.len() && toks[1].end == cat.len()
+}
+
+/// Do the two texts have the same token sequence by the reference lexer (line breaks and
+/// comments apart; literals compared by value)? Deviations that are layout-only one by one can
+/// combine into a different token sequence (`0 8` joined to `08` stays two tokens, but joined
+/// after the `0` was respelt `0X0` it is one): such combinations are not rewritings of the layout.
+fn same_token_sequence(a: &str, b: &str) -> bool {
+    let split = |t: &str| -> (Vec<String>, usize) {
+        let end = t.find('\n').unwrap_or(t.len());
+        (t[..end].split(|c: char| c == ' ' || c == '\t' || c == '\r').filter(|s| !s.is_empty()).map(|s| s.to_string()).collect(), end)
+    };
+    let (ha, ea) = split(a);
+    let (hb, eb) = split(b);
+    if ha != hb {
+        return false;
+    }
+    let ta: Vec<refgrammar::Tok> = refgrammar::lex(a, ea).into_iter().map(|t| t.tok).filter(|t| *t != refgrammar::Tok::Eol).collect();
+    let tb: Vec<refgrammar::Tok> = refgrammar::lex(b, eb).into_iter().map(|t| t.tok).filter(|t| *t != refgrammar::Tok::Eol).collect();
+    ta.len() == tb.len()
+        && ta.iter().zip(tb.iter()).all(|(x, y)| match (x, y) {
+            (refgrammar::Tok::Num(p), refgrammar::Tok::Num(q)) => p == q || (refgrammar::lit_value(p).map(|v| v.0) == refgrammar::lit_value(q).map(|v| v.0) && refgrammar::lit_value(p).is_some()) || respellings(p).contains(q),
+            _ => x == y,
+        })
 }
 
 fn respellings(t: &str) -> Vec<String> {
@@ -67,6 +89,10 @@ fn respellings(t: &str) -> Vec<String> {
     out.push(format!("0x{v:X}"));
     out.push(format!("0X{v:x}"));
     out.push(format!("00{v:o}"));
+    // leading zeros do not change a value: more digits than 64 bits' worth
+    out.push(format!("0x{v:020x}"));
+    out.push(format!("0b{v:070b}"));
+    out.push(format!("0{v:030o}"));
     out.sort();
     out.dedup();
     out.retain(|s| s != t);
@@ -192,6 +218,10 @@ fn examine(st: &mut Stats, u: u64, k: usize, variant: u64, ls: &[Line], layouts:
     st.witness(if accepted { "accepted_program" } else { "rejected_program" });
     for (li, lay) in layouts.iter().enumerate().skip(1) {
         let laid = apply(ls, lay);
+        if lay.len() > 1 && !same_token_sequence(&base.text, &laid.text) {
+            st.out_of_scope += 1;
+            continue;
+        }
         st.evals += 1;
         st.nontrivial += 1;
         let b = behaviour_n(&laid.text, sigs, script, max_rows);
